@@ -56,7 +56,8 @@ PARAMS = {
     "vcf_sample_idx": ("int", [1, 0]),
     "indelpost": ("bool", [True, False]),
 }
-ROUTES = ["profile_api", "genotype_api", "cli", "options", "options_explicit", "roundtrip", "dump"]
+ROUTES = ["profile_api", "genotype_api", "cli", "options", "options_explicit", "roundtrip", "dump",
+          "profile_api", "genotype_api", "cli", "options", "options_explicit", "roundtrip", "dump", "profile_cli"]
 MALFORMED = [("gap", "abc"), ("phase", "maybe"), ("min_quality", "x"), ("cn_max", "1.5x"), ("male", "2"),
              ("threshold", ""), ("indelpost", "no-way")]
 
@@ -96,7 +97,7 @@ def gen_world(seed, wi):
 def gen_plan(rng, tier, i, seed):
     cfg = TIERS[tier]
     route = ROUTES[i % len(ROUTES)]
-    strings_only = route in ("cli", "dump")
+    strings_only = route in ("cli", "dump", "profile_cli")
     names = rng.sample(sorted(PARAMS), rng.randint(1, 5))
     settings = []
     for n in names:
@@ -144,7 +145,7 @@ def execute(plan, runner, rundir):
               "route": plan["route"], "settings": plan["settings"], "options": plan["options"],
               "extra": plan["extra"], "dashes": plan["dashes"]}
     res = {}
-    if plan["route"] in ("roundtrip", "dump", "options", "options_explicit"):
+    if plan["route"] in ("roundtrip", "dump", "options", "options_explicit", "profile_cli"):
         res["write"] = runner.segment(dict(common, kind="write", hashseed=plan["write_hashseed"]))
     res["read"] = runner.segment(dict(common, kind="read", hashseed=plan["read_hashseed"],
                                       written=res.get("write")))
@@ -175,12 +176,30 @@ def expected_table(plan):
     return exp
 
 
+def _judge_profile_cli(plan, outcome, env, malformed):
+    vs = []
+    wr = outcome["write"]
+    if malformed:
+        if wr.get("wrote_profile"):
+            vs.append(_v("malformed value was not rejected with an error", name=plan["extra"][1],
+                         value=plan["extra"][2], **env))
+        return vs
+    for n, given, e, typ in plan["settings"]:
+        got = wr["options_text"].get(n, "<missing>")
+        if not _same(got, e, typ):
+            vs.append(_v("written profile does not carry the parameter value", name=n, given=given,
+                         expected=e, got=got, dashes=plan["dashes"], **env))
+    return vs
+
+
 def judge(plan, outcome):
     vs = []
     rd = outcome["read"]
     env = {"route": plan["route"], "extra": plan["extra"]}
     exp = expected_table(plan)
     malformed = plan["extra"] and plan["extra"][0] == "malformed"
+    if plan["route"] == "profile_cli":
+        return _judge_profile_cli(plan, outcome, env, malformed)
     if malformed:
         if not rd["rejected"]:
             vs.append(_v("malformed value was not rejected with an error", name=plan["extra"][1],
@@ -360,6 +379,24 @@ def run_segment(seg):
             except AldyException as ex:
                 out["rejected"] = O.exc_info(ex)
                 out["options_text"] = {}
+        elif route == "profile_cli":
+            # the real `aldy profile` command (scans every shipped gene): its stdout is the profile
+            import contextlib
+            import io
+
+            argv = ["profile", refbam, "-n", man["neutral"]]
+            for k, v in params.items():
+                kk = k.replace("_", "-") if seg.get("dashes") else k
+                argv += ["--param", f"{kk}={v}"]
+            buf = io.StringIO()
+            with contextlib.redirect_stdout(buf):
+                O.run_main(argv)
+            try:
+                doc = yaml.safe_load(buf.getvalue()) or {}
+            except Exception:
+                doc = {}
+            out["options_text"] = doc.get("options", {}) if isinstance(doc, dict) else {}
+            out["wrote_profile"] = isinstance(doc, dict) and "neutral" in doc
         elif route in ("options", "options_explicit"):
             _options_yaml(os.path.join(wd, man["profile_yml"]), os.path.join(rd, "opts.yml"), seg["options"])
         elif route == "dump":
@@ -370,6 +407,8 @@ def run_segment(seg):
     # ---- read / run
     res = {"observed": {}, "rejected": None, "defaults": _profile_attrs(Profile("")), "forced": []}
     written = seg.get("written") or {}
+    if route == "profile_cli":
+        return res
     if written.get("rejected"):
         res["rejected"] = written["rejected"]
         return res
